@@ -85,6 +85,13 @@ def check(ctx):
                    f"replaced by a copy of the argument, self is added once to the mirror list of every new element - in this order", floor=3)
         ctx.guarded(o, lambda o, name=name, mine=mine, other=other: mirror_dep(ctx, o, name, mine, other))
 
+    o = ctx.ob('links_listed_once', 'R4',
+               "predecessors/successors setters: the stored list holds every linked task ONCE (the argument is de-duplicated by object "
+               "identity, e.g. through _unique_tasks, or a repeated element is rejected) - the mirror side is kept with `if self not in ..: "
+               "append` / one `remove`, so a task stored twice is mirrored by one entry and a later removal through the other side leaves a "
+               "one-sided link", floor=2)
+    ctx.guarded(o, lambda o: listed_once(ctx, o))
+
     o = ctx.ob('mirror_parent', 'R4',
                "parent setter: the task is removed from the raw old parent's child list before the parent changes, the new parent's child "
                "list receives it exactly once (append guarded by `not in`), re-rooting goes through the WBS root task", floor=4)
@@ -811,7 +818,14 @@ def mirror_dep(ctx, o, name, mine, other):
     elif roles.is_arg_list(vx):
         o.refute(f, st, st, "the argument list object itself is stored (aliasing the caller's list)")
     else:
-        o.refute(f, st, st, f"the own {name} list becomes `{src(vx)[:60]}`, not exactly the given tasks")
+        parts = facts.comp_parts(vx)
+        other_field = any(isinstance(n, ast.Attribute) and n.attr in (other, mine) for n in ast.walk(vx))
+        if (parts and roles.is_arg_list(parts[2]) and (parts[3] or not (isinstance(parts[0], ast.Name) and isinstance(parts[1], ast.Name)
+                                                                         and parts[0].id == parts[1].id))) or other_field or \
+                (isinstance(vx, ast.BinOp) and any(roles.is_arg_list(x) for x in (vx.left, vx.right))):
+            o.refute(f, st, st, f"the own {name} list becomes `{src(vx)[:60]}`, not exactly the given tasks")
+        else:
+            o.undecided(f, st, st, f"the own {name} list becomes `{src(vx)[:60]}`: not recognised as a copy of the given tasks")
     s_ = f.self_name
 
     def xcalls(meth):
@@ -885,7 +899,12 @@ def mirror_dep(ctx, o, name, mine, other):
             continue
         it = ex.expand(fo.iter, cfg.node_of(fo))
         if not (roles.is_arg_list(it) or match(f"{s_}.{mine}", it)):
-            o.refute(f, fo, fo.iter, f"self is added to the mirror lists of `{src(it)[:50]}`, not of every element of the argument")
+            parts = facts.comp_parts(it)
+            if (parts and (roles.is_arg_list(parts[2]) or match(f"{s_}.{mine}", parts[2])) and parts[3]) or match(f"{s_}.{other}", it) or \
+                    isinstance(it, (ast.Subscript, ast.List)):
+                o.refute(f, fo, fo.iter, f"self is added to the mirror lists of `{src(it)[:50]}`, not of every element of the argument")
+            else:
+                o.undecided(f, fo, fo.iter, f"self is added to the mirror lists of `{src(it)[:50]}`: not recognised as the argument")
             continue
         conds = loop_conds(fo, c)
         bad = [(t, p) for t, p in conds if facts.cond_is(t, p, f"{s_} in {v.id}.{other}", False) is None]
@@ -899,6 +918,90 @@ def mirror_dep(ctx, o, name, mine, other):
         o.site(f, c, f"for v in value: v.{unmangle(other)}.append(self) if absent")
     if not done_c and not o.refuted and not o.unknown:
         absent('append', 'added to', 'mirror insertion')
+
+
+def _dedup_chain(roles, e, depth=0):
+    """e denotes the argument list, possibly copied/normalised: -> None (not the argument), False (the argument as given, repeated
+    elements included), True (the argument with every object once)"""
+    if depth > 8:
+        return None
+    if isinstance(e, ast.Name) and e.id == roles.arg:
+        return False
+    m = match("_unique_tasks($x)", e)
+    if m:
+        return True if _dedup_chain(roles, m['x'], depth + 1) is not None else None
+    m = match("list(dict.fromkeys($x))", e) or match("list(dict.fromkeys($x).keys())", e)
+    if m:        # Task defines no __eq__/__hash__ (C01.own): dict keys are distinct objects
+        return True if _dedup_chain(roles, m['x'], depth + 1) is not None else None
+    m = match("list({id($t): $t for $t in $x}.values())", e)
+    if m:
+        return True if _dedup_chain(roles, m['x'], depth + 1) is not None else None
+    m = match("_to_list($x)", e) or match("list($x)", e) or match("[$y for $y in $x]", e) or match("$x[:]", e) or match("$x.copy()", e) or \
+        match("tuple($x)", e)
+    if m:
+        return _dedup_chain(roles, m['x'], depth + 1)
+    return None
+
+
+def listed_once(ctx, o):
+    prog = ctx.prog
+    for name, mine, other in (('predecessors', '_Task__predecessors', '_Task__successors'),
+                              ('successors', '_Task__successors', '_Task__predecessors')):
+        f = prog.func(SETTERS[name])
+        cfg = cfg_of(f)
+        roles = Roles(prog, f, ctx.typer)
+        ex = Expander(prog, f, ctx.typer, inline=False)
+        s_ = f.self_name
+        stores = [(st, tgt, val) for st, tgt, val in facts.attr_stores(f, mine) if isinstance(tgt.value, ast.Name) and tgt.value.id == s_]
+        if len(stores) != 1:
+            o.undecided(f, f.node, f"self.{unmangle(mine)}", f"the own {name} list is stored {len(stores)} times")
+            continue
+        st, tgt, val = stores[0]
+        stn = cfg.node_of(st)
+        chain = _dedup_chain(roles, ex.expand(val, stn))
+        if chain is None:
+            o.undecided(f, st, st, f"the stored {name} list `{src(ex.expand(val, stn))[:60]}` is not recognised as (a copy of) the argument")
+            continue
+        if chain is True:
+            o.site(f, st, f"self.{unmangle(mine)} = the argument with every task once (de-duplicated by object identity)")
+            continue
+        # repeated elements rejected before the store?
+        rejected = None
+        for g in facts.guards_of(prog, f, ctx.typer, inline=False):
+            if g.exc != 'RuntimeError' or not cfg.dominates(g.cfg_node, stn) and cfg.can_reach(stn, g.cfg_node):
+                continue
+            for t, p in g.conds:
+                for a, q in facts.split_conj(t, p):
+                    a2, q2 = facts.norm_cond(a, q)
+                    if isinstance(a2, ast.Compare) and len(a2.ops) == 1 and all(match("len($x)", z) for z in [a2.left, a2.comparators[0]]):
+                        xs = [match("len($x)", z)['x'] for z in [a2.left, a2.comparators[0]]]
+                        for ids, lst in ((xs[0], xs[1]), (xs[1], xs[0])):
+                            inner = match("set($a)", ids)
+                            setish = inner['a'] if inner else (ids if isinstance(ids, ast.SetComp) else None)
+                            if setish is not None and _dedup_chain(roles, lst) is not None and \
+                                    ((isinstance(a2.ops[0], ast.Eq) and not q2) or isinstance(a2.ops[0], (ast.Lt, ast.Gt))):
+                                rejected = g
+        if rejected is not None:
+            o.site(f, rejected.node, f"a repeated element of the argument is rejected before self.{unmangle(mine)} is stored")
+            continue
+        # the mirror side: one entry per linked task?
+        guarded_append = False
+        for c in facts.calls_named(f, 'append'):
+            m = match(f"$v.{other}.append({s_})", ex.expand(c, cfg.node_containing(c)))
+            if m and isinstance(m['v'], ast.Name):
+                for t, p in cfg.conditions(cfg.node_containing(c)):
+                    tn = cfg.node_containing(t)
+                    for a, q in facts.split_conj(ex.expand(t, tn) if tn is not None else t, p):
+                        if facts.cond_is(a, q, f"{s_} in {m['v'].id}.{other}", False) is not None:
+                            guarded_append = True
+        if not guarded_append:
+            o.undecided(f, st, st, f"the argument is stored as given, and the rule does not recognise how the {unmangle(other)} side is maintained")
+            continue
+        o.refute(f, st, 'repeated element of the argument',
+                 f"the {name} setter stores the argument as given (`{src(val)[:50]}`): a task listed twice (t.{name} = [d, d], or "
+                 f"{name}.append(d) for a d that is already linked) is stored twice in self.{unmangle(mine)} while d.{unmangle(other)} gets self "
+                 f"once (`if self not in ..: append`); `d.{unmangle(other)} = []` then removes one of the two entries and the link is "
+                 f"one-sided. Expected: the argument de-duplicated by object identity (_unique_tasks) or repeated elements rejected")
 
 
 def _for_of(f, node):
